@@ -28,7 +28,7 @@ PROP = {
         I("c20_chain_v2_l5_k4", ("quick", "thorough"), "2 volumes, 5 B, 4 ops", "chain == concatenation under ops", cost=40),
         I("c20_chain_drain_v3_l6", ("quick", "thorough"), "3 volumes, 6 B, seek + drain with read(4)", "drain delivers exactly the rest", cost=20, covers=1),
         I("c20_chain_two_pass_v3_l6", ("quick", "thorough"), "3 volumes, 6 B: drain, seek back anywhere, drain again", "second pass delivers exactly the rest", cost=30, covers=1),
-        I("c20_chain_v3_l6_k5", ("thorough",), "3 volumes, 6 B, 5 ops", "chain == concatenation under ops", cost=300, timeout=3000),
-        I("c20_chain_v4_l8_k4", ("thorough",), "4 volumes, 8 B, 4 ops", "chain == concatenation under ops", cost=300, timeout=3000),
+        I("c20_chain_v3_l6_k5", ("quick", "thorough"), "3 volumes, 6 B, 5 ops", "chain == concatenation under ops", cost=300, timeout=3000),
+        I("c20_chain_v4_l8_k4", ("quick", "thorough"), "4 volumes, 8 B, 4 ops", "chain == concatenation under ops", cost=300, timeout=3000),
     ],
 }
